@@ -176,6 +176,10 @@ def fmt(sc):
 
 def parse(op):
     kv = dict(w.split("=", 1) for w in op.split()[1:])
+    if op.startswith("rs "):
+        return {"side": "c", "rec": 1, "reject": 0, "reqoff": int(kv["top"]), "reqep": 1, "hist": [], "top": int(kv["top"]),
+                "ep": 1, "buf": [], "live": [[int(kv["top"]) + i + 1, 1, 0] for i in range(int(kv["n"]))], "fset": [],
+                "mode": "resub"}
 
     def lst(s, n):
         if s in ("-", ""):
@@ -208,6 +212,23 @@ def oracle(op, out):
     sc = parse(op)
     if out.startswith("PANIC"):
         return ("panic in the implementation: " + out, {"kind": "panic"})
+    if op.startswith("rs "):
+        if not out.startswith("rs "):
+            return None
+        kv = dict(w.split("=", 1) for w in out.split()[1:])
+        pubs = [int(x) for x in kv["pubs"].split(",") if x]
+        late = [int(x) for x in kv["late"].split(",") if x and x != "-"]
+        seq = pubs + late
+        for a, b in zip(seq, seq[1:]):
+            if b <= a:
+                return (f"after unsubscribe and a recovering resubscribe (per-channel batching on) offset {b} was "
+                        f"delivered again after {a}: a push buffered for the ended subscription reached the connection",
+                        {"kind": "order", "where": "stale-batch-after-resubscribe", "side": "c"})
+        want = list(range(sc["top"] + 1, sc["top"] + 1 + len(sc["live"])))
+        if pubs != want:
+            return (f"resubscribe reply carries {pubs}, history after the requested offset is {want}",
+                    {"kind": "gap", "where": "resub-reply", "side": "c"})
+        return None
     if out.startswith("harness-error") or out == "<missing>" or out == "bad-op":
         return None  # counted separately, never a violation
     if not out.startswith("reply=ok"):
@@ -324,6 +345,8 @@ def _run_chunk(ctx, binary, ic):
 
 
 def shrink(ctx, binary, op, sig):
+    if op.startswith("rs "):
+        return op
     sc = parse(op)
 
     def fails(c):
@@ -434,6 +457,7 @@ def run(ctx):
         except FileNotFoundError:
             pass
         ops = known + corpus + [fmt(gen(ctx.rng)) for _ in range(ctx.scale(600, 40000))]
+        ops += [f"rs top={ctx.rng.choice([0, 1, 3, 10])} n={ctx.rng.choice([1, 1, 2, 3])}" for _ in range(ctx.scale(24, 400))]
     impl = run_parallel(ctx, binary, ops, workers=8)
     model = ctx.lean_run(ops)
     if model is None:
